@@ -12,7 +12,8 @@ Ties        : T  dtype-transfer expressions regenerated from /repo by lib/py2coq
                  reductions, Sequential) x {float32, float64} x upstream gradient of either dtype (and the default one):
                  observed result dtype == the single dtype predicted by the generated definitions; observed .grad
                  dtype/shape of every operand, parameter and of the root == the buffer model (compared inside Coq)
-Oracle      : the property itself on the observations: result.dtype == operand dtype when all floating operands share it,
+Oracle      : value level: tensor (op) Python scalar == NumPy in the tensor dtype, byte for byte (and gradients);
+              the property itself on the observations: result.dtype == operand dtype when all floating operands share it,
               result.shape == the shape computed by plain NumPy / PyTorch, t.grad.dtype == t.dtype and
               t.grad.shape == t.shape for every tensor after backward.
 Supporting  : (thorough tier only, sampled, not proof) float32 results agree with float64 results to 1e-4.
@@ -349,6 +350,39 @@ def agreement(ctx, info):
                     'float32 result within 1e-4 (relative) of the float64 result', bd)
 
 
+def scalar_values(ctx):
+    """oracle, value level: float64 (float32) tensors combined with non-dyadic Python scalars give bit-exactly the NumPy
+    float64 (float32) result - the scalar is not rounded through float32 - and so do the gradients"""
+    from lib import c10_layers as L
+    impl = _impl()
+    np = impl.np
+    rng = random.Random(ctx.seed + 31131)
+    n, fails = 0, []
+    for dtype in ('float64', 'float32'):
+        xs = L.scalar_value_inputs(np, dtype, rng)
+        for optext, meth, _, _, _ in L.SCALAR_OPS:
+            for s in L.SCALARS:
+                for a in xs:
+                    n += 1
+                    try:
+                        r = L.scalar_value_check(impl, optext, dtype, s, a.tolist())
+                    except Exception as ex:
+                        r = ('raises', 'completes', repr(ex)[:200])
+                    if r is not None:
+                        fails.append((optext, meth, dtype, s, a.tolist(), r))
+    ctx.extra['scalar_operand_value_checks'] = {'evaluations': n, 'failing': len(fails),
+                                                'references': "x*s, s*x: a*s; x+s, s+x: a+s; x-s: a-s; s-x: s-a; x/s: a*(s**-1); s/x: (a**-1)*s; -x: -a "
+                                                              "(NumPy in the tensor's dtype, compared byte for byte; gradients of sum(): np.full(shape, s | 1 | -1 | s**-1))"}
+    seen = set()
+    for optext, meth, dtype, s, a, r in fails:          # first failure per operator (the inputs start with x = [1., 3.], s = 0.1)
+        if meth in seen:
+            continue
+        seen.add(meth)
+        ctx.witness("Tensor." + meth, "scalar-operand-rounded-to-float32", {'scalar_op': optext, 'dtype': dtype, 'scalar': s, 'x': a},
+                    {r[0]: r[1]}, r[2], note="bit-exact comparison with the NumPy result computed in the tensor's dtype")
+    return fails
+
+
 # ------------------------------------------------------------------------------------------------ the check
 def run(ctx):
     # ---- T: regenerate and build ---------------------------------------------------------------------------------
@@ -378,6 +412,7 @@ def run(ctx):
     # ---- run the implementation once (recorded), then compare ---------------------------------------------------------
     obs_list, recdata = run_all(ctx, info)
     ctx.log("ran %d public calls" % len(obs_list))
+    sfails = scalar_values(ctx)
     found = oracle(ctx, obs_list)
     if info is not None and ok_build:
         selfcheck(ctx, info, recdata)
@@ -411,6 +446,11 @@ def replay(ctx, data):
     impl = _impl()
     np, sg = impl.np, impl.synapgrad
     inp = data["input"]
+    if 'scalar_op' in inp:
+        r = L.scalar_value_check(impl, inp['scalar_op'], inp['dtype'], inp['scalar'], inp['x'])
+        print("%s with x = %s (%s), s = %r ->" % (inp['scalar_op'], inp['x'], inp['dtype'], inp['scalar']),
+              "bit-exact with the NumPy reference: property holds on this input" if r is None else "%s differs: expected %s observed %s" % r)
+        return 0 if r is None else 1
     if 'case' in inp:
         c = [x for x in L.cases(impl, thorough=True) if x['name'] == inp['case']]
         if not c:
